@@ -272,12 +272,15 @@ def known_findings(prop):
     return out
 
 # ------------------------------------------------------------------------------------------------ shrinking
-def ddmin(lines, fails, budget=150):
-    """delta debugging on a list of op lines; `fails(lines) -> bool`. Keeps header/comment lines."""
+def ddmin(lines, fails, budget=150, max_s=240):
+    """delta debugging on a list of op lines; `fails(lines) -> bool`. Keeps header/comment lines.
+    Stops after `budget` trials or `max_s` seconds of wall clock (a changed tree on which every trial hangs until the
+    harness timeout must not turn one check into an hour of shrinking); whatever was reached by then is the replay."""
     n = 2
     calls = 0
     cur = list(lines)
-    while len(cur) >= 2 and calls < budget:
+    t_end = time.time() + max_s
+    while len(cur) >= 2 and calls < budget and time.time() < t_end:
         chunk = max(1, len(cur) // n)
         reduced = False
         for i in range(0, len(cur), chunk):
@@ -285,7 +288,7 @@ def ddmin(lines, fails, budget=150):
             calls += 1
             if cand and fails(cand):
                 cur = cand; n = max(n - 1, 2); reduced = True; break
-            if calls >= budget: break
+            if calls >= budget or time.time() >= t_end: break
         if not reduced:
             if chunk == 1: break
             n = min(n * 2, len(cur))
